@@ -58,7 +58,10 @@ def gen_cases(tier):
             else:
                 lengths = (1, 2) if tier == "quick" else (1, 2)
             for fi, f in enumerate(objs):
+                quick_len2 = (fi >= len(objs) - len(QUICK_TWO_TERM)) or fi in (1, 6, 11, 20)     # the two-term objectives + 4 one-term ones
                 for L in lengths + ((2,) if (spin and tier == "quick" and fi in (1, 6, 9)) else ()):
+                    if tier == "quick" and not spin and L == 2 and not quick_len2:
+                        continue
                     for seq in itertools.product(range(len(m)), repeat=L):
                         for lt in (True, False):
                             yield {"spin": spin, "objective": rp.jdict(f), "seq": list(seq), "log_trick": lt}
@@ -299,7 +302,7 @@ def run(ctx):
     ctx.bounds = {"model_variables": N, "max_labels_per_form": MAXL,
                   "objectives": {"PCBO": len(objectives(ctx.tier, False)), "PCSO": len(objectives(ctx.tier, True))},
                   "menu": {"PCBO": "14 comparison (C02 menu) + %s" % [l[0] for l in LOGICAL], "PCSO": "12 comparison (C03 menu)"},
-                  "history_length": {"PCBO": "1-2" if ctx.quick else "1-2 for all objectives, 3 for one-term objectives", "PCSO": "1 (2 for three one-term objectives)" if ctx.quick else "1-2"},
+                  "history_length": {"PCBO": "1 for all objectives, 2 for the two-term and four one-term objectives" if ctx.quick else "1-2 for all objectives, 3 for one-term objectives", "PCSO": "1 (2 for three one-term objectives)" if ctx.quick else "1-2"},
                   "weights": "(max f - min f) + 1 and + 0.5", "log_trick": [True, False],
                   "labels": "ascending strings for PCBO with log_trick=True, descending strings (keys written in unsorted order) for PCBO with log_trick=False and all PCSO cases"}
     ctx.rule = "case = (model kind, objective, ordered constraint history, log_trick), two weights each; non-trivial = some assignment is infeasible"
